@@ -635,3 +635,10 @@ Proof.
   destruct (negb (lenN tg =? 0) && negb (is_type_name tg)); [discriminate|].
   inversion G; subst. exists d. auto.
 Qed.
+
+Lemma plain_string_three r :
+  fst (get_string false r) = fst (skip_string_marker false r) /\
+  fst (get_string false r) = fst (skip_string false r) /\
+  (forall s, snd (get_string false r) = MOk s ->
+             snd (skip_string_marker false r) = MOk (bytes_eqb s secret_marker)).
+Proof. destruct (plain_string_same r) as (A & B & _ & _ & E). auto. Qed.
